@@ -26,6 +26,21 @@ pub fn fee_floor(amount: u128, share: Decimal) -> u128 {
     u128::try_from(r).unwrap_or(u128::MAX)
 }
 
+/// u128 -> i128, saturating
+pub fn si(a: u128) -> i128 {
+    i128::try_from(a).unwrap_or(i128::MAX)
+}
+
+/// a - b as a signed number, saturating at the i128 limits (LP supplies minted at the 128-bit
+/// ceiling exceed i128::MAX)
+pub fn sdiff(a: u128, b: u128) -> i128 {
+    if a >= b {
+        i128::try_from(a - b).unwrap_or(i128::MAX)
+    } else {
+        i128::try_from(b - a).map(|x| -x).unwrap_or(i128::MIN + 1)
+    }
+}
+
 /// signed delta table post - pre over all accounts and denoms (zero entries omitted)
 pub fn deltas(pre: &Balances, post: &Balances) -> BTreeMap<(String, String), i128> {
     let mut out = BTreeMap::new();
@@ -33,7 +48,7 @@ pub fn deltas(pre: &Balances, post: &Balances) -> BTreeMap<(String, String), i12
         for (d, v) in m.iter() {
             let p = pre.get(a).and_then(|x| x.get(d)).copied().unwrap_or(0);
             if *v != p {
-                out.insert((a.clone(), d.clone()), *v as i128 - p as i128);
+                out.insert((a.clone(), d.clone()), sdiff(*v, p));
             }
         }
     }
@@ -41,7 +56,7 @@ pub fn deltas(pre: &Balances, post: &Balances) -> BTreeMap<(String, String), i12
         for (d, v) in m.iter() {
             let q = post.get(a).and_then(|x| x.get(d)).copied().unwrap_or(0);
             if q == 0 && *v != 0 {
-                out.insert((a.clone(), d.clone()), -(*v as i128));
+                out.insert((a.clone(), d.clone()), sdiff(0, *v));
             }
         }
     }
@@ -54,7 +69,7 @@ pub fn add_delta(m: &mut BTreeMap<(String, String), i128>, addr: &str, denom: &s
     }
     let k = (addr.to_string(), denom.to_string());
     let e = m.entry(k.clone()).or_insert(0);
-    *e += v;
+    *e = e.saturating_add(v);
     if *e == 0 {
         m.remove(&k);
     }
